@@ -394,7 +394,10 @@ func vC05RefStr(w *bytes.Buffer, s []byte) {
 	w.Write(s)
 }
 
-func vC05RefEnc(w *bytes.Buffer, n *vC05Node) {
+// keyed=false: the specification's strict array (count + values); keyed=true: the library's
+// layout (count + (name, value) pairs) -- used only to GENERATE inputs the library accepts and
+// to track what such inputs mean, independently of the library's own encoder
+func vC05RefEnc(w *bytes.Buffer, n *vC05Node, keyed bool) {
 	switch n.kind {
 	case vC05Num: // 2.2 number-type = number-marker DOUBLE
 		w.WriteByte(0x00)
@@ -415,7 +418,7 @@ func vC05RefEnc(w *bytes.Buffer, n *vC05Node) {
 		w.WriteByte(0x03)
 		for _, p := range n.props {
 			vC05RefStr(w, p.key)
-			vC05RefEnc(w, p.val)
+			vC05RefEnc(w, p.val, keyed)
 		}
 		w.Write([]byte{0, 0, 9})
 	case vC05Null:
@@ -427,7 +430,7 @@ func vC05RefEnc(w *bytes.Buffer, n *vC05Node) {
 		w.Write([]byte{byte(n.count >> 24), byte(n.count >> 16), byte(n.count >> 8), byte(n.count)})
 		for _, p := range n.props {
 			vC05RefStr(w, p.key)
-			vC05RefEnc(w, p.val)
+			vC05RefEnc(w, p.val, keyed)
 		}
 		w.Write([]byte{0, 0, 9})
 	case vC05Strict: // 2.12 strict-array-type = array-count *(value-type)
@@ -435,20 +438,31 @@ func vC05RefEnc(w *bytes.Buffer, n *vC05Node) {
 		c := uint32(len(n.props))
 		w.Write([]byte{byte(c >> 24), byte(c >> 16), byte(c >> 8), byte(c)})
 		for _, p := range n.props {
-			vC05RefEnc(w, p.val)
+			if keyed {
+				vC05RefStr(w, p.key)
+			}
+			vC05RefEnc(w, p.val, keyed)
 		}
 	}
 }
 
 func vC05RefEncode(n *vC05Node) []byte {
 	var w bytes.Buffer
-	vC05RefEnc(&w, n)
+	vC05RefEnc(&w, n, false)
+	return w.Bytes()
+}
+
+func vC05KeyedEncode(n *vC05Node) []byte {
+	var w bytes.Buffer
+	vC05RefEnc(&w, n, true)
 	return w.Bytes()
 }
 
 // returns the value and the rest of the input; ok=false for truncated input or a type outside
 // the supported set
-func vC05RefDec(p []byte) (n *vC05Node, rest []byte, ok bool) {
+func vC05RefDec(p []byte) (n *vC05Node, rest []byte, ok bool) { return vC05RefDecK(p, false) }
+
+func vC05RefDecK(p []byte, keyed bool) (n *vC05Node, rest []byte, ok bool) {
 	if len(p) < 1 {
 		return nil, nil, false
 	}
@@ -472,7 +486,7 @@ func vC05RefDec(p []byte) (n *vC05Node, rest []byte, ok bool) {
 			if !ok {
 				return nil, nil, false
 			}
-			v, q2, ok := vC05RefDec(q1)
+			v, q2, ok := vC05RefDecK(q1, keyed)
 			if !ok {
 				return nil, nil, false
 			}
@@ -529,11 +543,19 @@ func vC05RefDec(p []byte) (n *vC05Node, rest []byte, ok bool) {
 		q := p[5:]
 		ps := []vC05Prop{}
 		for i := uint32(0); i < c; i++ {
-			v, q2, ok := vC05RefDec(q)
+			key := []byte{}
+			if keyed {
+				k, q1, ok := str(q)
+				if !ok {
+					return nil, nil, false
+				}
+				key, q = k, q1
+			}
+			v, q2, ok := vC05RefDecK(q, keyed)
 			if !ok {
 				return nil, nil, false
 			}
-			ps = append(ps, vC05Prop{key: []byte{}, val: v})
+			ps = append(ps, vC05Prop{key: key, val: v})
 			q = q2
 		}
 		return &vC05Node{kind: vC05Strict, props: ps}, q, true
